@@ -62,9 +62,12 @@ int main(int argc, char **argv) {
     int nthreads = argc > 2 ? atoi(argv[2]) : 4;
     int rounds = argc > 3 ? atoi(argv[3]) : 3;
     std::mt19937 rng(seed);
-    struct Spec { const char *cls; const char *kind; };
+    struct Spec { const char *cls; const char *kind; bool negativeDag = false; };
     std::vector<Spec> specs = {{"dir", "none"}, {"dir", "int"}, {"dir", "str"}, {"und", "none"}, {"und", "int"}, {"und", "dbl"},
-                               {"dmulti", "-"}, {"umulti", "-"}, {"dw", "-"}, {"uw", "-"}};
+                               {"dmulti", "-"}, {"umulti", "-"}, {"dw", "-"}, {"uw", "-"},
+                               // an acyclic weighted graph with negative weights: code paths (warnings, clamps) that
+                               // only weights below zero reach are const code too
+                               {"dw", "-", true}};
     std::vector<std::unique_ptr<SlotBase>> slots;
     std::vector<int> sizes;
     for (auto &sp : specs) {
@@ -77,6 +80,11 @@ int main(int argc, char **argv) {
             std::string cls = sp.cls;
             if (cls == "dir" || cls == "und") s->mutate("addEdge", Args{i, j, l, "0"}, out);
             else if (cls == "dmulti" || cls == "umulti") s->mutate("addMultiedge", Args{i, j, std::to_string(1 + rng() % 3), "0"}, out);
+            else if (sp.negativeDag) {
+                int a = rng() % n, b = rng() % n;
+                if (a == b) continue;
+                s->mutate("addEdge", Args{std::to_string(std::min(a, b)), std::to_string(std::max(a, b)), std::to_string((int)(rng() % 17) - 8), "0"}, out);
+            }
             else s->mutate("addEdge", Args{i, j, l, "0"}, out);
         }
         slots.push_back(std::move(s));
